@@ -246,6 +246,25 @@ def r3(ctx):
                     problems.append("the prefix compared is not the lower-cased declared prefix")
         elif info["starts_with"]:
             problems.append("unexpected starts_with condition")
+        # inside the requirement loop nothing else decides whether an entry is enforced: the only conditions between the
+        # loop head and the exit are the iteration itself and the membership / presence / prefix tests above (an extra
+        # `if entry.is_empty() { continue }`, a length test, a flag .. silently exempts declared requirements)
+        lp_ = loop_of_exit(b, bi)
+        extra_ = []
+        for a_, sx_, c_, tr_ in guard_conditions(b, bi):
+            if not lp_ or a_ not in lp_ or c_["kind"] == "discr":
+                continue
+            cal_ = c_.get("callee", "")
+            if c_["kind"] == "call" and re.search(r"slice::<impl \[T\]>::contains$|Vec::<T, A>::contains$|HashSet::<T, S, A>::contains$|BTreeSet::<T, A>::contains$", cal_):
+                if b.slice_op(c_["term"]["args"][0]).has_field("signed_headers"):
+                    continue  # membership in the signed-header list (or a set built from it)
+                extra_.append("contains on something other than the signed-header list")
+                continue
+            if c_["kind"] == "call" and re.search(r"str>::starts_with$|HashMap::<K, V, S, A>::contains_key$|Iterator::any$|Option::<T>::is_(some|none)$|HashMap::<K, V, S, A>::get$", cal_):
+                continue
+            extra_.append((cal_ or c_.get("op") or c_["kind"]).split("::")[-1])
+        if extra_:
+            problems.append("an additional condition inside the requirement loop decides whether an entry is enforced (%s)" % sorted(set(extra_)))
         if problems:
             yield VIOL("C05-R3", "get_auth_parameters/%s" % acc, "; ".join(problems), where=b.span_of_block(bi))
         else:
